@@ -1036,7 +1036,7 @@ impl Prop for C16 {
     }
     fn runs(&self, tier: Tier) -> u64 {
         match tier {
-            Tier::Quick => 60_000,
+            Tier::Quick => 100_000,
             Tier::Thorough => 3_000_000,
         }
     }
